@@ -108,7 +108,7 @@ def id_correspondence(ck):
 # ----------------------------------------------------------------------------- window frame bounds
 FRAME_VALUES = [None, I64MIN, I64MIN + 1, -2 ** 62, -5, -1, 0, 1, 7, 2 ** 62, I64MAX - 1, I64MAX]
 BOUND_RE = r"(UNBOUNDED PRECEDING|UNBOUNDED FOLLOWING|CURRENT ROW|\d+ PRECEDING|\d+ FOLLOWING)"
-FRAME_RE = re.compile(r"OVER \((ROWS|RANGE) BETWEEN " + BOUND_RE + " AND " + BOUND_RE + r"\)")
+FRAME_RE = re.compile(r"OVER \((?:ORDER BY [A-Za-z_0-9\", .]+ )?(ROWS|RANGE) BETWEEN " + BOUND_RE + " AND " + BOUND_RE + r"\)")
 
 
 def _windows(v):
@@ -136,7 +136,8 @@ def frame_correspondence(ck):
     """Model/RangeArith.v frame_bounds vs rq_to_sql: the frame of a window function with integer-literal bounds
     (every sign, zero, i64::MIN / MAX, missing) fed through json_rq; the printed bounds must be the model's."""
     rng = ck.rng
-    base = harness("rq", [{"src": "from t | window rows:-1..1 (derive {s = sum b})"}])[0]
+    # exactly one sort key: since 91a6a23 a RANGE frame with a numeric offset needs one (translate_windowed, outside the model)
+    base = harness("rq", [{"src": "from t | window rows:-1..1 (sort a | derive {s = sum b})"}])[0]
     if "ok" not in base or not list(_windows(base["ok"])):
         ck.violation("cannot get the RQ of the frame correspondence base program", {"answer": str(base)[:300], "kind": "correspondence"})
         return
